@@ -32,6 +32,30 @@ chk("C16", "model_checking",
     "Every grammar is generated twice (parser type with and without _onBounds); for every sentence explored TLC compares the recorded action/_onBounds events with the events derived from the derivation tree spans (one call right after the action for every non-empty user reduction, with first/last token; list/optional helper nodes with the span gathered so far; none for empty spans), and the variant without _onBounds must produce the same action sequence and no calls; runs are validated against ParserRT, which mirrors the trimming code.",
     BASE + "repeated identical calls of pass-through helper reductions are not counted (their number is not specified); grammars with *! are left to C03",
     "tree-span oracle in TLA+ evaluated by TLC on recorded event traces; trace validation", "DESIGN.md 3 C16")
+chk("C02", "model_checking",
+    "All strings, per specification: TLC explores the product of the decoded emitted table of every mode with the reference derivative automaton of the mode's rules (LexSem.tla: Antimirov partial derivatives, classes as interval sets) over the interval alphabet cut at every range boundary of both sides, with invariants viability / action labels / flag; every real state machine is driven by the real simplelexer over all strings up to a bound over a representative alphabet plus random long inputs with multi-byte runes and invalid UTF-8 and TLC compares the token streams with LexSem!Tokens up to the first error; PushRune-level traces are validated against LexerRT.",
+    BASE + "simplelexer v0.5.0 as the reference driver; unicode/utf8 decoding; random rule sets are a sample",
+    "product exploration (real table x reference automaton) in TLC; definitional tokenizer on recorded token streams; trace validation", "DESIGN.md 3 C02")
+chk("C07", "model_checking",
+    "Curated mode graphs (nested, recursive, re-entering the default mode, the documented examples) and every subset and permutation (<= 3) of @push_mode(A)/@push_mode()/@pop_mode/@emit/@discard on a token and on a fragment; each mode lexes the probe character to a different token, so the mode is visible in the token stream; for all strings over the probe alphabet up to the bound TLC compares the real token stream with the documented mode-stack semantics (LexSem!Tokens applies a rule's mode actions in written order) and validates the PushRune traces (state, stack depth, mode after every call) against LexerRT.",
+    BASE + "compared up to the first lexical error (what Reset does to the mode stack is unspecified)",
+    "definitional mode-stack tokenizer in TLA+ on recorded streams; trace validation against the state-machine model", "DESIGN.md 3 C07")
+chk("C08", "model_checking",
+    "prefix x body x terminator rule shapes with *? and +? (self-overlapping terminators, bodies containing the terminator's characters) with greedy neighbours; all strings up to the bound through the real lexer; TLC evaluates shortest-match semantics: full stream equality where the non-greedy rule's prefix is non-empty and unshared, otherwise per token (a token of a rule with a non-greedy repetition is the shortest match of that rule at its start, a token of a greedy rule the longest); traces validated against LexerRT; the as-built meaning of the non-greedy flag is checked for all strings in C10's product.",
+    BASE + "where the documentation does not determine the whole stream (empty or shared prefix) only the per-token reading is asserted",
+    "shortest-match oracle (partial derivatives) in TLA+ on recorded streams; trace validation", "DESIGN.md 3 C08")
+chk("C10", "translation_validation",
+    "Tables scraped from the generated files are decoded by TableObs.tla with the documented row format: well-formedness (index vector, row tiling, bounds, sorted disjoint ranges, parameter ranges) and state-by-state equality with lox's automata dumped in-process (parser: actions, gotos, _rules, _termCounts; lexer: ranges, targets, flag, action pairs); the lexer tables are additionally proved equivalent to the rules for all strings by the LexProduct exploration with the as-built non-greedy meaning; the row codec itself is checked on every TLC-enumerated small row sequence through the verif-tag hook (Decode(Encode(rows)) = rows, rows shared only when identical).",
+    BASE + "harness/cmd/dump serialises lr1.ParserTable / mode.Mode faithfully; the hook only forwards to table.AddRow/Array",
+    "decode-and-compare in TLA+ (TableObs), product exploration (LexProduct), small-scope codec enumeration (TableCodec)", "DESIGN.md 3 C10")
+chk("C11", "model_checking",
+    "The reference driver and the state machine are modelled together (LexerTrace over LexerRT); every recorded run (all strings up to a bound + random long inputs, rule sets incl. nullable rules, accumulating fragments, modes, inputs ending inside a construct) is validated call by call, and the model's ghost segment list (token / discarded / error stretch / lost) must partition the input; reaching EOF is checked on the real code under a budget of 4*len+16 reads and 8*len+64 PushRune calls.",
+    BASE + "budgets stand for non-termination; known findings matched by mechanism-level signatures",
+    "trace validation of the driver+state-machine model with a ghost accounting variable", "DESIGN.md 3 C11")
+chk("C15", "model_checking",
+    "Rang3.tla models Normalize as a state machine (heap as a set popped in (B,E) order, the four geometric cases, onChange events, the relabelling map) and TLC checks exhaustively over every list of <= 3 ranges in 0..U: termination, every original range is the exact union of its pieces (invariant and per-event action property), final pieces disjoint-or-equal; the real rang3.Normalize/Flatten/Subtract are run on the same lists at three placements (0, U+4E00, up to U+10FFFF) and Rang3Trace requires the recorded onChange events to be exactly the model's and Flatten/Subtract to be set union/difference; over the full universe class and literal specifications (every escape, negation, difference, dot, overlapping classes, random ranges at UTF-8 length boundaries) are compared with LexSem!InClass at every boundary code point +-1 through the real lexer and through the emitted table.",
+    BASE + "surrogate code points cannot occur in UTF-8 input and are not fed; U=5 (quick) / 7 (thorough)",
+    "exhaustive TLC model of the range splitter + event-trace binding to the real package; boundary product exploration", "DESIGN.md 3 C15")
 
 def main():
     props = [json.loads(l)["id"] for l in open("/verif/properties.jsonl")]
